@@ -6,6 +6,7 @@ index, reads are chunked as the plan says, every operation is logged with the
 virtual time and a global sequence number.
 """
 import errno
+import os
 import socket as _socket
 
 import gevent
@@ -195,9 +196,10 @@ class FakeSocket(object):
       self.net.record('peer_eof', self)
       self.rx_evt.set()
 
-  def deliver_reset(self):
+  def deliver_reset(self, code=None):
     if self.err is None:
-      self.err = _socket.error(errno.ECONNRESET, 'Connection reset by peer')
+      # OSError maps the errno to its subclass: ETIMEDOUT gives the builtin TimeoutError (== socket.timeout)
+      self.err = _socket.error(code or errno.ECONNRESET, 'Connection reset by peer' if not code else os.strerror(code))
       self.net.record('peer_reset', self)
       self.rx_evt.set()
 
